@@ -125,6 +125,14 @@ def gen_case(rnd):
             dlon = math.copysign(25.0, dlon)
         x, y, _, _ = tm.forward(lat, dlon, A, INVF, K0)
         e, n = x + FE, y + FN
+    if not edge and rnd.random() < 0.08:
+        # a northing at which one of the trigonometric factors of the inverse Krueger series vanishes (a millimetre to
+        # kilometres off): a series cut short "when the term is small" is cut there by the factor, not by the coefficient
+        for _ in range(20):
+            y = tmwork.series_zero_y(rnd, A, INVF, K0)
+            if 0.6e6 < y < 6.6e6:
+                n = FN - y
+                break
     e, n = round(e, rnd.choice([3, 4])), round(n, rnd.choice([3, 4]))
     hr = rnd.random()
     if hr < 0.25:
